@@ -576,10 +576,11 @@ def check_ancillaries(rec, rng, cid):
         idnt, _ = fitlab.build_curve(spec)
         for _ in range(6):
             anc = {}
-            for k in ("E", "alpha", "other"):
+            for k in ("E", "alpha", "other", "contact_point"):
                 r = rng.random()
                 anc[k] = np.nan if r < .35 else float(
                     rng.uniform(1, 80) if k == "alpha"
+                    else rng.uniform(-1e-6, 1e-6) if k == "contact_point"
                     else 10 ** rng.uniform(1, 5))
                 if .35 <= r < .5:
                     # zero is a value like any other (within the bounds)
@@ -592,8 +593,17 @@ def check_ancillaries(rec, rng, cid):
             idnt.fit_properties["params_initial"] = None
             p = idnt.get_initial_fit_parameters(model_key="hm_anc")
             d = m_anc.get_parameter_defaults()
-            for k in ("E", "alpha"):
+            # (without a usable ancillary the contact point is the one
+            #  estimated from the data, as for a model without ancillaries)
+            cp_data = idnt.get_initial_fit_parameters(
+                model_key="hertz_cone", model_ancillaries=False)[
+                "contact_point"].value
+            idnt.fit_properties["params_initial"] = None
+            p = idnt.get_initial_fit_parameters(model_key="hm_anc")
+            for k in ("E", "alpha", "contact_point"):
                 want = d[k].value if np.isnan(anc[k]) else anc[k]
+                if k == "contact_point" and np.isnan(anc[k]):
+                    want = cp_data
                 rec.check(p[k].value == want, "ancillary-seeding/" + k,
                           "ancillary %s=%r -> initial %r, expected %r"
                           % (k, anc[k], p[k].value, want), case)
@@ -601,12 +611,13 @@ def check_ancillaries(rec, rng, cid):
                       "ancillary-seeding/unrelated",
                       "non-matching ancillary influenced parameters", case)
             a = idnt.get_ancillary_parameters(model_key="hm_anc")
-            rec.check(list(a.keys()) == ["max_indent", "E", "alpha", "other"],
+            rec.check(list(a.keys()) == ["max_indent", "E", "alpha", "other",
+                                         "contact_point"],
                       "ancillary-keys", "ancillary keys %s" % list(a), case)
     finally:
         model.models_available.pop("hm_anc", None)
         hmodels.ANC_RETURN.update({"E": np.nan, "alpha": np.nan,
-                                   "other": np.nan})
+                                   "other": np.nan, "contact_point": np.nan})
 
 
 def run_all(rec, rng, cid, tmpdir, counter, with_faults):
